@@ -134,6 +134,7 @@ func strs(m map[string]any, k string) []string {
 }
 
 func (r *run) state() St {
+	r.w.ObserveKeys(r.cfg.CertKeys)
 	p := r.w.Project(r.cfg.CertKeys, r.cfg.Tokens)
 	st := St{Nodes: map[string]NodeSt{}, Tokens: map[string]world.TokProj{}, Regw: p.Regw}
 	for k, n := range p.Nodes {
@@ -252,12 +253,17 @@ func Run(bh Behaviour, seed int64) ([]Line, error) {
 }
 
 func (r *run) fetchSpec(op map[string]any) world.FetchSpec {
-	return world.FetchSpec{
+	fs := world.FetchSpec{
 		K: s(op, "k"), E: s(op, "e"), Nonce: s(op, "n"),
 		WrapW: s(op, "ww"), WrapK: s(op, "wk"), WrapN: s(op, "wn"),
 		RewrapBy: s(op, "rby"), RewrapKey: s(op, "rwith"), RewrapK: s(op, "rk"), RewrapN: s(op, "rn"),
 		SelfInfo: b(op, "selfinfo"),
 	}
+	if b(op, "back") {
+		// built early / backdated: the validity window began three days ago and has a day to go
+		fs.NotBefore, fs.NotAfter = time.Now().Add(-72*time.Hour), time.Now().Add(24*time.Hour)
+	}
+	return fs
 }
 
 func (r *run) step(op map[string]any, ln *Line) {
@@ -850,6 +856,13 @@ func (r *run) keySource(src, which string) (*types.NodeCredentials, string) {
 		ks, _ := w.NodeSideKeySource("rand")
 		return ks, "rand"
 	}
+	if which == "gone" {
+		if g, ok := w.GoneSrc[src]; ok {
+			return g.Src, "gone:" + src
+		}
+		ks, _ := w.NodeSideKeySource("rand")
+		return ks, "rand"
+	}
 	if which == "cur" {
 		ks, _ := w.NodeSideKeySource(src)
 		return ks, "cur:" + src
@@ -902,6 +915,13 @@ func (r *run) rotate(op map[string]any, ln *Line) {
 		panic(err)
 	}
 	ks, _ := r.keySource(s(op, "src"), s(op, "which"))
+	if s(op, "which") == "gone" {
+		// the model is told WHICH key this is: its generation number and the node encryption key it was agreed with
+		op["gsrv"], op["genc"] = 0, world.None
+		if g, ok := w.GoneSrc[s(op, "src")]; ok {
+			op["gsrv"], op["genc"] = w.SrvGen(g.SrvPriv), g.Enc
+		}
+	}
 	ct, err := nodeenrollment.EncryptMessage(w.Ctx, inner, ks)
 	if err != nil {
 		panic(err)
